@@ -78,7 +78,7 @@ var roleNames = []string{"proposer", "non-proposer", "round1-proposer"}
 
 type validators struct{ role int }
 
-func (v validators) TotalVotingPower(types.Height) types.VotingPower        { return 4 }
+func (v validators) TotalVotingPower(types.Height) types.VotingPower         { return 4 }
 func (v validators) ValidatorVotingPower(types.Height, *A) types.VotingPower { return 1 }
 func (v validators) Proposer(_ types.Height, r types.Round) A {
 	even := r%2 == 0
